@@ -171,3 +171,34 @@ type RecRootBA struct {
 	B map[string]*RecDag2
 	A RecDag
 }
+
+// Shaper is a non-empty interface: a *Shaper member compiles to the pointer-to-interface op as
+// *interface{} does.
+type Shaper interface{ Shape() string }
+
+// SlotHungry is a dynamic value whose program uses many working slots (three per slice, map
+// iteration state, a nested struct).
+type SlotHungry struct {
+	S1, S2, S3 []string
+	I1, I2     []int
+	M          map[string][]int
+	N          struct{ A, B []float64 }
+	T          string
+}
+
+func (SlotHungry) Shape() string { return "hungry" }
+
+type SmallShape struct{ V int }
+
+func (SmallShape) Shape() string { return "small" }
+
+// RecIP: pointer-to-interface members before and after the recursive member.
+type RecIP struct {
+	A   int
+	Ip  *interface{}
+	R   *RecIP
+	Z   string
+	Sp  *Shaper
+	Kid []*RecIP     `json:"kid,omitempty"`
+	Ip2 *interface{} `json:"ip2,omitempty"`
+}
